@@ -7,9 +7,9 @@
 #include "galloc.h"
 #include <aws/common/priority_queue.h>
 
-#define MAXEL 5
+#define MAXEL 6 /* 6: the smallest heap in which the element moved into a vacated slot can need a sift-UP (slot 4 <- slot 5) */
 #define NH 5
-#define MAXITEM 300
+#define MAXITEM 384
 
 struct cfg {
     char name[64];
@@ -352,9 +352,10 @@ static void set_cfg(size_t item, int is_static, size_t cap) {
 int main(int argc, char **argv) {
     v_init(argc, argv);
     aws_common_library_init(aws_default_allocator());
-    static const size_t items_q[] = {1, 8, 129}, items_t[] = {1, 8, 128, 129, 300};
+    /* 128, 256, 384: exact multiples of the internal 128-byte swap slice; 129, 300: slice loop + remainder */
+    static const size_t items_q[] = {1, 8, 128, 129, 256}, items_t[] = {1, 8, 127, 128, 129, 256, 300, 384};
     const size_t *items = v_thorough() ? items_t : items_q;
-    int nitems = v_thorough() ? 5 : 3;
+    int nitems = v_thorough() ? 8 : 5;
     struct {
         int st;
         size_t cap;
@@ -367,8 +368,9 @@ int main(int argc, char **argv) {
                 if (esx_token_is_for(v_replay_token, g_cfg.name)) rc |= esx_replay(&model, v_replay_token);
                 continue;
             }
-            if (!v_thorough() && items[i] != 8 && (s == 1 || s == 3)) continue;
-            model.max_depth = v_thorough() ? 9 : (items[i] == 1 ? 8 : 7);
+            if (!v_thorough() && items[i] != 8 && s != 0 && s != 4) continue; /* quick: all stores for size 8, dyn0 + static3 otherwise */
+            if (v_thorough() && items[i] > 129 && (s == 1 || s == 3)) continue;
+            model.max_depth = v_thorough() ? 9 : (items[i] <= 8 ? 8 : 7);
             esx_run(&model);
         }
     v_finish();
